@@ -18,6 +18,7 @@ from .explore import ExecResult, _account, _blank_result, _json_safe
 def run_family(execute: Callable[[Any, List[int]], ExecResult], cases: Iterable[Any], deadline: float) -> dict:
     res = _blank_result()
     first = True
+    seen: set = set()
     cases = list(cases)
     for n, case in enumerate(cases):
         if time.time() > deadline:
@@ -25,6 +26,14 @@ def run_family(execute: Callable[[Any, List[int]], ExecResult], cases: Iterable[
             res["cap_pending"] = len(cases) - n
             break
         r = execute(case, [])
+        # one witness per (clause, key) and family: a defect that shows in thousands of cases must not crowd
+        # other violations out of the framework's bounded violation lists
+        fresh = []
+        for v in r.violations:
+            if (v["clause"], v["key"]) not in seen:
+                seen.add((v["clause"], v["key"]))
+                fresh.append(v)
+        r.violations = fresh
         _account(res, r, case, [], first)
         if first:
             r2 = execute(case, [])
@@ -33,15 +42,6 @@ def run_family(execute: Callable[[Any, List[int]], ExecResult], cases: Iterable[
                 res["replay_divergences"] += 1
                 res["divergent"].append(_json_safe({"params": case}))
             first = False
-    # one witness per (clause, key) and family: a defect that shows in thousands of cases must not crowd
-    # other violations out of the framework's bounded violation list
-    seen = set()
-    unique = []
-    for v in res["violations"]:
-        if (v["clause"], v["key"]) not in seen:
-            seen.add((v["clause"], v["key"]))
-            unique.append(v)
-    res["violations"] = unique
     return res
 
 
